@@ -81,7 +81,11 @@ pub fn run(case: &Value, em: &mut Emitter) {
         }
     });
     if changed.get("k").is_some() { em.emit("index", json!({"p": {}, "qs": [], "hist": "mutation panicked"}), changed); return; }
-    if changed != json!("none") { observe(&smi, &qs, changed.as_str().unwrap(), em); }
+    if changed != json!("none") {
+        observe(&smi, &qs, changed.as_str().unwrap(), em);
+        let c = smi.clone();
+        observe(&c, &qs, "clone-after-change", em);
+    }
 }
 
 /// a well-formed index: sections at strictly increasing offsets whose tokens stay before the next offset
